@@ -64,12 +64,46 @@ def scan_assumptions(asm, sc):
 def run_verus_unit(u, tier, seed, work, log):
     """returns dict(result=VerusResult, asm=..., sidecar=..., extra=...)"""
     sc = parse_sidecar(os.path.join(u['dir'], 'unit.vx'))
-    asm = assemble(sc)
+    try:
+        asm = assemble(sc)
+    except RsxError as e:
+        fallback_witness(u, sc, work, tier, str(e))
+        raise
     if not asm.selfcheck_ok:
         raise Undecided('%s: assembler self-check failed (assembled text minus insertions != rule-rewritten source tokens)' % u['name'])
     assumptions = scan_assumptions(asm, sc)
     res = VB.run_verus(asm, work, u['name'])
+    if res.status == 'undecided':
+        fallback_witness(u, sc, work, tier, res.reason)
     return {'res': res, 'asm': asm, 'sc': sc, 'assumptions': assumptions}
+
+
+class FallbackViolation(Exception):
+    def __init__(self, unit, failure, asm):
+        self.unit, self.failure, self.asm = unit, failure, asm
+
+
+def fallback_witness(u, sc, work, tier, reason):
+    """The deductive run is undecided (anchor lost / the restructured code no longer matches the proof text).
+    Before giving up, compile the extracted function natively (rules applied, NO contract splices) and run
+    the unit's bounded witness search: a concrete input on which the real function violates the executable
+    rendering of its contract is a genuine violation and is reported (decided by a bounded check, and said
+    so); if none is found the run stays UNDECIDED (exit 2)."""
+    if not u.get('witness'):
+        return
+    from .replay import search_witness
+    try:
+        plain = assemble(sc, plain_only=True)
+    except RsxError:
+        return
+    w, note = search_witness(u, plain.plain, work, tier)
+    if w is None:
+        return
+    f = VB.Failure(obligation='%s::contract-on-real-function (bounded native search; deductive run undecided)' % u['name'],
+                   message='the verifier run was undecided (%s); the bounded native search on the extracted function found an input that violates the contract: %s'
+                           % (' '.join(reason.split())[:200], w.get('why', '')),
+                   kind='contract', fn='', where=u['name'], rendered=reason[:3000])
+    raise FallbackViolation(u, f, plain)
 
 
 def thorough_verus(u, base, seed, work, log):
@@ -148,6 +182,13 @@ def main(argv=None):
     log = []
     try:
         return _run(prop, units, tier, seed, work, t0)
+    except FallbackViolation as fv:
+        from .replay import write_replay
+        path, found = write_replay(prop, fv.unit, {'asm': fv.asm}, fv.failure, work, tier)
+        print('VIOLATION property=%s replay=%s%s' % (prop, path, '' if found else ' no-failing-input-found'))
+        print('  ' + fv.failure.message[:600])
+        _write_min_evidence(prop, tier, seed, time.time() - t0, fv)
+        return 1
     except (RsxError, Undecided, SidecarError) as e:
         print('UNDECIDED property=%s %s' % (prop, e))
         return 2
@@ -171,71 +212,76 @@ def _run(prop, units, tier, seed, work, t0):
     checker_cmds = []
     trusted = set()
     extra_info = {}
+    undecided_units = []
     for name, u in units.items():
-        if u['backend'] == 'verus':
-            base = run_verus_unit(u, tier, seed, work, None)
-            res, asm = base['res'], base['asm']
-            if res.status == 'undecided':
-                raise Undecided('%s: %s' % (name, res.reason))
-            n_fn = len([f for f in asm.functions if ' fn ' in ' ' + f['item'] or f['item'].startswith('fn ')])
-            n_obl = asm.clause_count + n_fn            # clauses + one safety group (bounds/overflow/termination) per function
-            failed = res.failures
-            mach = [f for f in failed if f.kind in ('spec-lemma', 'canary')]
-            if mach:
-                raise Undecided('%s: a code-independent lemma of the sidecar failed: %s (%s)' % (name, mach[0].obligation, mach[0].message))
-            failed_keys = {f.obligation for f in failed}
-            obligations += n_obl
-            discharged += n_obl - len(failed_keys)
-            solver_s += res.smt_ms / 1000.0
-            checker_cmds.append(res.cmd)
-            assumptions += ['%s: %s' % (name, a) for a in base['assumptions']]
-            assumptions += ['%s: %s' % (name, a) for a in u.get('assumptions', [])]
-            trusted.update(u.get('trusted_base', []))
-            functions += [dict(f, unit=name) for f in asm.functions]
-            drops += [dict(d, unit=name) for d in asm.drops]
-            samples += _obligation_names(asm, name)
-            for f in failed:
-                all_failures.append((u, base, f))
-            evidence_units.append({'unit': name, 'backend': 'verus', 'verus_verified_items': res.verified, 'verus_errors': res.errors,
-                                   'spliced_blocks': asm.splice_count, 'contract_clauses': asm.clause_count, 'functions_under_contract': n_fn,
-                                   'wall_s': round(res.wall_s, 2), 'smt_ms': res.smt_ms, 'rlimit_used': res.rlimit,
-                                   'per_function': res.fn_breakdown, 'source_sha256': asm.sources,
-                                   'assembler_selfcheck': asm.selfcheck_ok, 'binds': asm.binds})
-            if tier == 'thorough' and res.status == 'verified':
-                extra_info[name] = thorough_verus(u, base, seed, work, None)
-        elif u['backend'] in ('kani', 'native'):
-            if u['backend'] == 'kani':
-                from .kani_backend import run_kani_unit
-                kr = run_kani_unit(u, tier, seed, work)
+        try:
+            if u['backend'] == 'verus':
+                base = run_verus_unit(u, tier, seed, work, None)
+                res, asm = base['res'], base['asm']
+                if res.status == 'undecided':
+                    raise Undecided('%s: %s' % (name, res.reason))
+                n_fn = len([f for f in asm.functions if ' fn ' in ' ' + f['item'] or f['item'].startswith('fn ')])
+                n_obl = asm.clause_count + n_fn            # clauses + one safety group (bounds/overflow/termination) per function
+                failed = res.failures
+                mach = [f for f in failed if f.kind in ('spec-lemma', 'canary')]
+                if mach:
+                    raise Undecided('%s: a code-independent lemma of the sidecar failed: %s (%s)' % (name, mach[0].obligation, mach[0].message))
+                failed_keys = {f.obligation for f in failed}
+                obligations += n_obl
+                discharged += n_obl - len(failed_keys)
+                solver_s += res.smt_ms / 1000.0
+                checker_cmds.append(res.cmd)
+                assumptions += ['%s: %s' % (name, a) for a in base['assumptions']]
+                assumptions += ['%s: %s' % (name, a) for a in u.get('assumptions', [])]
+                trusted.update(u.get('trusted_base', []))
+                functions += [dict(f, unit=name) for f in asm.functions]
+                drops += [dict(d, unit=name) for d in asm.drops]
+                samples += _obligation_names(asm, name)
+                for f in failed:
+                    all_failures.append((u, base, f))
+                evidence_units.append({'unit': name, 'backend': 'verus', 'verus_verified_items': res.verified, 'verus_errors': res.errors,
+                                       'spliced_blocks': asm.splice_count, 'contract_clauses': asm.clause_count, 'functions_under_contract': n_fn,
+                                       'wall_s': round(res.wall_s, 2), 'smt_ms': res.smt_ms, 'rlimit_used': res.rlimit,
+                                       'per_function': res.fn_breakdown, 'source_sha256': asm.sources,
+                                       'assembler_selfcheck': asm.selfcheck_ok, 'binds': asm.binds})
+                if tier == 'thorough' and res.status == 'verified':
+                    extra_info[name] = thorough_verus(u, base, seed, work, None)
+            elif u['backend'] in ('kani', 'native'):
+                if u['backend'] == 'kani':
+                    from .kani_backend import run_kani_unit
+                    kr = run_kani_unit(u, tier, seed, work)
+                else:
+                    from .native_backend import run_native_unit
+                    kr = run_native_unit(u, tier, seed, work)
+                if kr['undecided']:
+                    raise Undecided('%s: %s' % (name, kr['undecided']))
+                obligations += kr['obligations']
+                discharged += kr['discharged']
+                bounded += kr['bounded']
+                solver_s += kr['solver_s']
+                checker_cmds.append(kr['cmd'])
+                assumptions += ['%s: %s' % (name, a) for a in kr['assumptions']]
+                assumptions += ['%s: %s' % (name, a) for a in u.get('assumptions', [])]
+                trusted.update(u.get('trusted_base', []))
+                functions += kr['functions']
+                drops += kr['drops']
+                samples += kr['samples']
+                for f in kr['failures']:
+                    all_failures.append((u, kr, f))
+                evidence_units.append(kr['evidence'])
+                if kr.get('extra'):
+                    extra_info[name] = kr['extra']
+                if tier == 'thorough' and not kr['failures'] and u['backend'] == 'kani':
+                    from .kani_backend import thorough_kani
+                    ti = thorough_kani(u, seed, work)
+                    extra_info[name] = ti
+                    if ti.get('degraded'):
+                        raise Undecided('%s: %s' % (name, ti['degraded']))
             else:
-                from .native_backend import run_native_unit
-                kr = run_native_unit(u, tier, seed, work)
-            if kr['undecided']:
-                raise Undecided('%s: %s' % (name, kr['undecided']))
-            obligations += kr['obligations']
-            discharged += kr['discharged']
-            bounded += kr['bounded']
-            solver_s += kr['solver_s']
-            checker_cmds.append(kr['cmd'])
-            assumptions += ['%s: %s' % (name, a) for a in kr['assumptions']]
-            assumptions += ['%s: %s' % (name, a) for a in u.get('assumptions', [])]
-            trusted.update(u.get('trusted_base', []))
-            functions += kr['functions']
-            drops += kr['drops']
-            samples += kr['samples']
-            for f in kr['failures']:
-                all_failures.append((u, kr, f))
-            evidence_units.append(kr['evidence'])
-            if kr.get('extra'):
-                extra_info[name] = kr['extra']
-            if tier == 'thorough' and not kr['failures'] and u['backend'] == 'kani':
-                from .kani_backend import thorough_kani
-                ti = thorough_kani(u, seed, work)
-                extra_info[name] = ti
-                if ti.get('degraded'):
-                    raise Undecided('%s: %s' % (name, ti['degraded']))
-        else:
-            raise Undecided('unknown backend %s' % u['backend'])
+                raise Undecided('unknown backend %s' % u['backend'])
+        except (Undecided, RsxError) as e:
+            # one unit being undecided must not hide a violation another unit of the same property can decide
+            undecided_units.append('%s: %s' % (name, e))
 
     # ---- triage failures
     violations = []
@@ -268,7 +314,7 @@ def _run(prop, units, tier, seed, work, t0):
         rc = 1
     wall = time.time() - t0
     ev = {
-        'property_id': prop, 'tier': tier, 'seed': seed, 'level': 'proof',
+        'property_id': prop, 'tier': tier, 'seed': seed, 'level': 'proof' if not undecided_units else 'other',
         'coverage': {
             'obligations': obligations, 'discharged': discharged,
             'checker_cmd': ' ; '.join(checker_cmds)[:4000],
@@ -284,6 +330,7 @@ def _run(prop, units, tier, seed, work, t0):
                            'complete Kani harness; bounded harnesses are listed under bounded_obligations and are not counted.',
             'thorough': extra_info,
             'failed_obligations': [{'obligation': f.obligation, 'message': f.message, 'where': f.where} for _, _, f in all_failures],
+            'undecided_units': undecided_units,
         },
         'assumptions': assumptions,
         'wall_s': round(wall, 2),
@@ -292,9 +339,26 @@ def _run(prop, units, tier, seed, work, t0):
     os.makedirs(os.path.join(ROOT, 'evidence'), exist_ok=True)
     with open(os.path.join(ROOT, 'evidence', prop + '.json'), 'w') as fh:
         json.dump(ev, fh, indent=1)
+    if rc == 0 and undecided_units:
+        for r in undecided_units:
+            print('UNDECIDED property=%s %s' % (prop, r))
+        return 2
     if rc == 0:
         print('OK property=%s tier=%s obligations=%d discharged=%d bounded=%d wall=%.1fs' % (prop, tier, obligations, discharged, len(bounded), wall))
+    elif undecided_units:
+        for r in undecided_units:
+            print('  (also undecided: %s)' % r[:300])
     return rc
+
+
+def _write_min_evidence(prop, tier, seed, wall, fv):
+    ev = {'property_id': prop, 'tier': tier, 'seed': seed, 'level': 'other',
+          'coverage': {'explanation': 'the deductive run was undecided on this tree; a bounded native search on the extracted function found a '
+                                      'concrete contract violation, which is reported. Nothing is claimed as proved by this run.',
+                       'failed_obligations': [{'obligation': fv.failure.obligation, 'message': fv.failure.message}]},
+          'assumptions': [], 'wall_s': round(wall, 2), 'violations': 1}
+    os.makedirs(os.path.join(ROOT, 'evidence'), exist_ok=True)
+    json.dump(ev, open(os.path.join(ROOT, 'evidence', prop + '.json'), 'w'), indent=1)
 
 
 def _match_known(known, prop, f):
